@@ -45,6 +45,7 @@ inductive TEv
   | envRel (x : LockId)
   | acc (x : LockId) (write : Bool) (v : Nat) (bad : Bool)
   | mark (n : Nat)
+  | pois (p : PoisonId) (b : Bool)   -- poison flag `p` observed changed (sampled at raw operations)
   deriving DecidableEq, Repr, Inhabited
 
 inductive Terminal | done | unwound | spin | abort | selfDeadlock | outOfFuel
@@ -55,6 +56,8 @@ structure SeqSt where
   counts : List ((LockId × OpKind) × Nat) := []
   trace : List TEv := []          -- reversed
   evs : List Ev := []             -- reversed, full model events (incl. internal ones)
+  np : Nat := 0                   -- number of poison flags observed
+  seenPoison : List Bool := []    -- their values at the last raw operation
 
 def SeqSt.count (s : SeqSt) (x : LockId) (k : OpKind) : Nat :=
   ((s.counts.find? fun c => c.1 == (x, k)).map (·.2)).getD 0
@@ -81,6 +84,13 @@ def envRelease (e : Env) (x : LockId) : Env :=
   e.setLock x { s with writer := if s.writer == some other then none else s.writer,
                         readers := s.readers.filter (· != other) }
 
+/-- The harness samples the poison flags at every raw-lock operation and reports changes. -/
+def SeqSt.samplePoison (s : SeqSt) : SeqSt :=
+  let now := (List.range s.np).map fun p => s.env.poison p
+  let changes := (List.range s.np).filterMap fun p =>
+    if now.getD p false != s.seenPoison.getD p false then some (TEv.pois p (now.getD p false)) else none
+  { s with trace := changes.reverse ++ s.trace, seenPoison := now }
+
 /-- Answer one operation of the client. `none` = self-deadlock. -/
 def seqAnswer (script : Script) (s : SeqSt) (o : Op) : Option (Resp × SeqSt) :=
   let plain (s : SeqSt) (fault : Bool) : Option (Resp × SeqSt) :=
@@ -101,6 +111,7 @@ def seqAnswer (script : Script) (s : SeqSt) (o : Op) : Option (Resp × SeqSt) :=
   | some (k, x) =>
     if (s.env.locks x).killed && (k != .unlockX && k != .unlockS) then plain s false
     else
+      let s := s.samplePoison
       let occ := s.count x k
       let s' := s.bump x k
       match script.find x k occ with
@@ -132,6 +143,7 @@ def TEv.text : TEv → String
   | .envRel x => s!"E{x}"
   | .acc x w v b => (if w then "w" else "r") ++ s!"{x}={v}" ++ (if b then "?" else "")
   | .mark n => s!"m{n}"
+  | .pois p b => s!"p{p}" ++ (if b then "+" else "-")
 
 def Terminal.text : Terminal → String
   | .done => "done" | .unwound => "unwound" | .spin => "spin" | .abort => "abort"
